@@ -406,6 +406,28 @@ func C01(tier string) int {
 			}
 		}
 	}
+	// F1e: IRIs of less usual but URL-normal shape (explicit port, IPv6 literal, query, fragment, userinfo,
+	// percent-escape, punycode host, no path) as the value of every property (on the first type that has it)
+	// and as the document's id
+	iriShapes := []string{"https://x.example:8443/a", "https://[2001:db8::1]/a", "https://[2001:db8::1]:8443/a", "https://x.example/a?b=c&d=e", "https://x.example/a#frag",
+		"https://user@x.example/a", "https://x.example/a%20b", "https://xn--bcher-kva.example/a", "http://x.example/", "https://x.example", "https://x.example/a/../b/./c", "https://x.example/a?"}
+	for _, pk := range props {
+		for _, tk := range topTypes {
+			if !o.HasProp(tk, pk) {
+				continue
+			}
+			p := o.Props[pk]
+			for _, iri := range iriShapes {
+				d := M{"type": o.Types[tk].Name, "id": "https://x.example/doc", p.Name: iri}
+				add("canonical|iri-shape", withContext(o, d, tk), true)
+			}
+			break
+		}
+	}
+	for i, tk := range topTypes {
+		d := M{"type": o.Types[tk].Name, "id": iriShapes[i%len(iriShapes)], "name": "n"}
+		add("canonical|iri-shape-as-id", withContext(o, d, tk), true)
+	}
 	// F2: nesting to depth 3 through carrier properties
 	carriers := []string{"object", "attachment", "tag", "inReplyTo"}
 	for i, tk := range topTypes {
@@ -693,7 +715,7 @@ func C01(tier string) int {
 	nc("empty-string-members", note("content", "", "summary", ""))
 
 	// ---- run ----
-	res.Rule = fmt.Sprintf("documents derived from the ontology grammar: every (type, property, kind in range closure + IRI) x {scalar, list of 2, mixed list <=4, language map} (canonical), nesting depth 2-3 through object/attachment/tag/inReplyTo for every type, unknown members from a 10-value alphabet under 3 key spellings at top level and nested, every (type, name of a property the type does not have) as a member (top level; every 16th nested), lists of 2-3 same-kind elements of which exactly one (each position) nests a value of another vocabulary, every list of 2-4 elements over one element per vocabulary (x 5 carrying properties), every type under an @context that names more than it uses (all shipped vocabularies / an unknown extension URL / an inline term map), and %d accepted-but-non-canonical shapes; %d documents in total; oracle: (a) canonical: encode(decode(d)) JSON-equal to d with @context compared as a set that must equal the vocabularies the oracle says the document uses; (b) no member lost except nested @context / null for a known property, natural-language members modulo the Map spelling; (c) a second round trip changes nothing unless the document holds such a null or an array directly inside an array; non-trivial = documents the decoder accepted, distinct by (family, type, member names)", 22+6*10+len(o.Vocabs), len(cases))
+	res.Rule = fmt.Sprintf("documents derived from the ontology grammar: every (type, property, kind in range closure + IRI) x {scalar, list of 2, mixed list <=4, language map} (canonical), nesting depth 2-3 through object/attachment/tag/inReplyTo for every type, unknown members from a 10-value alphabet under 3 key spellings at top level and nested, every (type, name of a property the type does not have) as a member (top level; every 16th nested), lists of 2-3 same-kind elements of which exactly one (each position) nests a value of another vocabulary, IRIs of 12 less usual URL-normal shapes (port, IPv6 literal, query, fragment, userinfo, percent-escape, punycode, no path, dot segments, empty query) as the value of every property and as ids, every list of 2-4 elements over one element per vocabulary (x 5 carrying properties), every type under an @context that names more than it uses (all shipped vocabularies / an unknown extension URL / an inline term map), and %d accepted-but-non-canonical shapes; %d documents in total; oracle: (a) canonical: encode(decode(d)) JSON-equal to d with @context compared as a set that must equal the vocabularies the oracle says the document uses; (b) no member lost except nested @context / null for a known property, natural-language members modulo the Map spelling; (c) a second round trip changes nothing unless the document holds such a null or an array directly inside an array; non-trivial = documents the decoder accepted, distinct by (family, type, member names)", 22+6*10+len(o.Vocabs), len(cases))
 	var mu sync.Mutex
 	chunk := 4000
 	par((len(cases)+chunk-1)/chunk, func(ci int) {
